@@ -28,7 +28,7 @@ m = {
     "setup_cmd": "./setup.sh",
     "hooks": {
         "guard": "verif",
-        "enable": "go build tag: -tags verif (used by ./check for the propshook package)",
+        "enable": "go build tag: -tags verif (used by ./check for C14 and C16, whose test files carry the same tag)",
         "baseline_off_cmd": "cd /repo && GOFLAGS=-mod=mod GOPROXY=off GOSUMDB=off GOTOOLCHAIN=local go test -json -vet=off -count=1 -timeout 25m ./...",
         "source_commits": json.load(open(os.path.join(HERE, "hooks.json")))["source_commits"] if os.path.exists(os.path.join(HERE, "hooks.json")) else [],
         "add_only": True,
